@@ -297,7 +297,7 @@ Definition member_at (h : Ptr) (i : Z) (p : Ptr) : Prop :=
   p_size p = p_size h /\ p_kind p = KStruct /\ p_member p = true.
 
 Definition empty_view (p : Ptr) : Prop := p_kind p = KStruct /\ p_size p = mkOS 0 0 /\ p_member p = false.
-Definition cap_view (p : Ptr) : Prop := p_kind p = KIface /\ 0 <= p_len p < 4294967296.
+Definition cap_view (p : Ptr) : Prop := p_kind p = KIface /\ 0 <= p_len p < 4294967296 /\ p_member p = false.
 Definition view (objs : list Ptr) (p : Ptr) : Prop :=
   p_valid p = false \/ (p_member p = false /\ In (core p) objs) \/ (exists h i, In h objs /\ member_at h i p) \/
   empty_view p \/ cap_view p.
@@ -555,12 +555,17 @@ Definition sub_op (o : bop) : bool :=
   | _ => false
   end.
 
-(* the pointer setters of the sub-language store handles of whole objects; storing a list
-   member copies it (see the copy lemmas) *)
+(* the pointer setters of the sub-language store handles of whole objects, or list members
+   without pointer section (they are copied into a fresh struct: [write_ptr_member_data]);
+   storing a list member with pointers is a deep copy, not covered *)
 Definition src_handle (o : bop) : option Z :=
   match o with BSetPtr _ _ hs | BPLSet _ _ hs | BSetRoot hs => Some hs | _ => None end.
 Definition plain_src (st : bstate) (o : bop) : Prop :=
-  match src_handle o with Some hs => p_valid (snd (hget st hs)) = true -> p_member (snd (hget st hs)) = false | None => True end.
+  match src_handle o with
+  | Some hs => p_valid (snd (hget st hs)) = true -> p_member (snd (hget st hs)) = true ->
+               PointerCount (p_size (snd (hget st hs))) = 0
+  | None => True
+  end.
 
 Lemma cores_snoc objs h : cores objs -> cores (objs ++ [core h]).
 Proof. intros C x Hx. apply in_app_or in Hx. destruct Hx as [Hx|[<-|[]]]; [apply C; exact Hx|reflexivity]. Qed.
@@ -667,28 +672,152 @@ Proof.
   rewrite Eseg. apply HW; lia.
 Qed.
 
+(* storing a list member without pointer section (List.Struct of a primitive list, or of a
+   composite list whose elements have no pointers): writePtr copies it into a fresh struct whose
+   data section is the element padded to a word, and places a pointer to the copy *)
+Lemma write_ptr_member_data f w objs pads q src w' :
+  hinv (w_dst w) objs pads -> cores objs -> In q ((0, 0) :: flat_map slots objs) ->
+  (exists h i, In h objs /\ member_at h i src) -> PointerCount (p_size src) = 0 ->
+  write_ptr (S f) true w (fst q) (snd q) InDst src false = Ok w' ->
+  nsegs (w_dst w') < 4294967296 ->
+  exists objs' pads', hinv (w_dst w') objs' pads' /\ cores objs' /\ incl objs objs'.
+Proof.
+  intros H C Hq (hl & i & Hhl & MA) Hpc HW Hns.
+  pose proof MA as (Hk & Hb & Hi & Hv & Es & Eo & Esz & Ek & Hm).
+  assert (Vw : view objs src) by (right; right; left; exists hl, i; auto).
+  destruct (struct_view_geom _ _ _ src H Vw Hv Ek) as [E0|(ho & Hin & Eseg & D0 & P0 & Olo & Ohi & _)].
+  { (* zero-sized member: the inline empty struct *)
+    assert (Hsrc : p_valid src = false \/ In (core src) objs /\ p_member src = false \/
+                   p_kind src = KStruct /\ os_isZero (p_size src) = true \/
+                   p_kind src = KIface /\ 0 <= p_len src < 4294967296).
+    { right. right. left. split; [exact Ek|]. rewrite E0. reflexivity. }
+    destruct (write_ptr_hinv f w objs pads q src w' H Hq Hsrc HW Hns) as [pads' H'].
+    exists objs, (pads ++ pads'). split; [exact H'|]. split; [exact C|apply incl_refl]. }
+  destruct (obj_bounds _ _ _ _ H Hin) as (B1 & B2 & B3 & B4 & B5). rewrite Eseg in *. rewrite Hpc in *.
+  destruct (slot_geometry _ _ _ _ H Hq) as (Q1 & Q2 & Q3 & Q4 & _).
+  set (DS := DataSize (p_size src)) in *.
+  unfold write_ptr in HW. cbn [write_ptr_gen] in HW. rewrite Hv, Ek in HW. cbn [negb] in HW.
+  destruct (os_isZero (p_size src)) eqn:EZ.
+  { assert (Hsrc : p_valid src = false \/ In (core src) objs /\ p_member src = false \/
+                   p_kind src = KStruct /\ os_isZero (p_size src) = true \/
+                   p_kind src = KIface /\ 0 <= p_len src < 4294967296) by (right; right; left; auto).
+    assert (HW' : write_ptr (S f) true w (fst q) (snd q) InDst src false = Ok w').
+    { unfold write_ptr. cbn [write_ptr_gen]. rewrite Hv, Ek, EZ. cbn [negb]. exact HW. }
+    destruct (write_ptr_hinv f w objs pads q src w' H Hq Hsrc HW' Hns) as [pads' H'].
+    exists objs, (pads ++ pads'). split; [exact H'|]. split; [exact C|apply incl_refl]. }
+  assert (DSpos : 0 < DS).
+  { unfold os_isZero in EZ. fold DS in EZ. rewrite Hpc in EZ. lia. }
+  rewrite Hm in HW. rewrite Bool.orb_true_r in HW. cbn [bind] in HW. fold DS in HW. rewrite Hpc in HW.
+  set (csz := mkOS (padToWord DS) 0) in *.
+  assert (PW : padToWord DS mod 8 = 0 /\ DS <= padToWord DS <= DS + 7) by (unfold padToWord, u32; lia).
+  assert (TS : totalSize csz = padToWord DS) by (unfold totalSize, pointerSize, u32, csz; cbn [DataSize PointerCount]; lia).
+  rewrite TS in HW.
+  destruct (alloc (w_dst w) (fst q) (padToWord DS)) as [[[m1 nsid] naddr]| |] eqn:EA; cbn [bind] in HW; try discriminate.
+  set (dstp := mkPtr true nsid naddr 0 csz maxDepth KStruct false false false) in *.
+  destruct f as [|f]; [cbn [copy_struct_gen bind] in HW; discriminate HW|].
+  assert (Hz : 0 <= padToWord DS) by lia.
+  pose proof (hi_inv _ _ _ H) as Hinv.
+  destruct (alloc_keeps _ _ _ _ _ _ Hinv Q1 Hz EA) as (K1 & I1 & N1 & S1 & AD & L1 & _ & _ & _ & MX).
+  unfold maxSegmentSize in MX. pose proof (zlen_nonneg (mem (w_dst w) nsid)) as Z0.
+  pose proof (alloc_small _ _ _ _ _ _ Hinv (hi_small _ _ _ H) Q1 Hz EA) as Sm1.
+  assert (PP : padToWord (padToWord DS) = padToWord DS) by (unfold padToWord, u32 in *; lia).
+  rewrite PP in L1.
+  (* the element size is a legal data size *)
+  assert (DSb : DS <= 524280).
+  { destruct (hi_good _ _ _ H hl Hhl) as [_ (Sh & _)]. unfold shape_ok in Sh. rewrite Hk in Sh.
+    unfold DS. rewrite Esz. destruct Sh as (_ & [(_ & [[X _]|[_ [Hs|(d & Hs & Hd)]]])|(_ & _ & (Hd & _) & _)]).
+    - congruence.
+    - rewrite Hs. cbn. lia.
+    - rewrite Hs. cbn. lia.
+    - lia. }
+  (* copyStruct: one write of the element followed by zero padding *)
+  cbn [copy_struct_gen] in HW. unfold dstp, csz in HW. cbn [p_valid negb] in HW. rewrite Hv in HW. cbn [negb] in HW.
+  cbn [w_segs w_dst w_set_dst p_seg p_off p_size DataSize PointerCount] in HW. fold DS in HW. rewrite Hpc in HW.
+  rewrite !nth_bm_data in HW.
+  assert (LS : zlen (mem (w_dst w) (p_seg src)) <= zlen (mem m1 (p_seg src))) by (apply (proj1 K1); lia).
+  pose proof (Sm1 (p_seg src)) as SmS. unfold maxSegmentSize in SmS.
+  rewrite (slice_ok (mem m1 (p_seg src)) (p_off src) DS) in HW by lia.
+  rewrite (slice_ok (mem m1 nsid) naddr (padToWord DS)) in HW by lia.
+  cbn [bind] in HW.
+  assert (Ls : length (sub (mem m1 (p_seg src)) (p_off src) DS) = Z.to_nat DS).
+  { pose proof (sub_length (mem m1 (p_seg src)) (p_off src) DS ltac:(lia) ltac:(lia) ltac:(lia)) as X. unfold zlen in X. lia. }
+  assert (Ld : length (sub (mem m1 nsid) naddr (padToWord DS)) = Z.to_nat (padToWord DS)).
+  { pose proof (sub_length (mem m1 nsid) naddr (padToWord DS) ltac:(lia) ltac:(lia) ltac:(lia)) as X. unfold zlen in X. lia. }
+  rewrite Ls, Ld in HW.
+  set (bs := firstn (Nat.min (Z.to_nat DS) (Z.to_nat (padToWord DS))) (sub (mem m1 (p_seg src)) (p_off src) DS)
+             ++ repeat 0 (Z.to_nat (padToWord DS) - Nat.min (Z.to_nat DS) (Z.to_nat (padToWord DS)))) in *.
+  assert (Lb : zlen bs = padToWord DS).
+  { unfold bs, zlen. rewrite app_length, firstn_length, repeat_length, Ls. lia. }
+  unfold lift0 in HW.
+  destruct (seg_write m1 nsid naddr bs) as [m2| |] eqn:EW; cbn [bind] in HW; try discriminate.
+  change (Z.min 0 0) with 0 in HW. change (0 - 0) with 0 in HW. change (Z.to_nat 0) with O in HW.
+  change (iota 0) with (@nil Z) in HW. cbn [map fold_res bind] in HW.
+  apply seg_write_wrote in EW; [|lia|lia].
+  assert (N12 : nsegs m2 = nsegs m1) by (unfold nsegs; apply (wrote_nsegs _ _ _ _ _ EW)).
+  cbn [p_seg p_off p_size] in HW. fold csz in HW.
+  destruct (of_opt_panic (rawStructPointer 0 csz)) as [raw| |] eqn:ER; cbn [bind] in HW; try discriminate.
+  cbn [p_seg p_off] in HW.
+  (* bounds of the intermediate messages from the final one *)
+  assert (I2 : inv m2) by (apply (wrote_inv _ _ _ _ _ EW); [lia|exact I1]).
+  assert (Q12 : 0 <= fst q < nsegs m2) by lia.
+  assert (S12 : 0 <= nsid < nsegs m2) by lia.
+  destruct (place_keeps (w_set_dst (w_set_dst w m1) m2) (fst q) (snd q) nsid naddr raw w' I2 Q12 S12 HW) as (_ & _ & N2' & _).
+  cbn [w_dst w_set_dst] in N2'.
+  (* the new struct joins the table *)
+  assert (H1 : hinv m1 (objs ++ [core dstp]) pads).
+  { apply (hinv_alloc_obj (w_dst w) objs pads (fst q) (padToWord DS) m1 nsid naddr (core dstp)); auto; try reflexivity; try lia.
+    all: unfold shape_ok, obj_bytes, core, dstp, os_wf; cbn [p_kind p_size p_comp p_len p_bit]; try exact TS; try discriminate.
+    all: try (unfold csz; cbn [DataSize PointerCount]; split; [lia|]; split; [reflexivity|]; split; reflexivity). }
+  assert (Hd1 : In (core dstp) (objs ++ [core dstp])) by (apply in_or_app; right; left; reflexivity).
+  assert (H2 : hinv m2 (objs ++ [core dstp]) pads).
+  { apply (hinv_data_write m1 _ pads m2 (core dstp) naddr bs); auto.
+    - unfold core, dstp. cbn [p_seg]. lia.
+    - unfold core, dstp. cbn [p_off]. lia.
+    - rewrite Lb. unfold obj_reg, obj_start, obj_bytes, core, dstp. cbn [p_kind p_comp p_off p_size r_size]. rewrite TS, PP. lia.
+    - intros x Hx. unfold slots, tgt_of, core, dstp, csz in Hx. cbn in Hx. destruct Hx. }
+  assert (Hq2 : In q ((0, 0) :: flat_map slots (objs ++ [core dstp]))).
+  { destruct Hq as [<-|Hq]; [left; reflexivity|right]. rewrite flat_map_app. apply in_or_app. left. exact Hq. }
+  destruct (hinv_place m2 (objs ++ [core dstp]) pads (w_set_dst (w_set_dst w m1) m2) q (core dstp) raw w') as [pads' H'];
+    auto.
+  all: try (unfold core, dstp; cbn [p_size]; intros _; unfold os_isZero, csz; cbn [DataSize PointerCount]; lia).
+  all: try (unfold raw_of, core, dstp; cbn [p_kind p_size]; exact ER).
+  exists (objs ++ [core dstp]), (pads ++ pads'). split; [exact H'|]. split; [apply cores_snoc; exact C|].
+    intros x Hx. apply in_or_app. left. exact Hx.
+Qed.
+
 (* storing a handle in a pointer slot *)
 Lemma slot_store st objs pads f sd ad hs w1 :
   sinv st objs pads -> In (sd, ad) ((0, 0) :: flat_map slots objs) ->
-  (p_valid (snd (hget st hs)) = true -> p_member (snd (hget st hs)) = false) ->
+  (p_valid (snd (hget st hs)) = true -> p_member (snd (hget st hs)) = true ->
+   PointerCount (p_size (snd (hget st hs))) = 0) ->
   write_ptr f true (st_w st) sd ad (fst (hget st hs)) (snd (hget st hs)) false = Ok w1 ->
   nsegs (w_dst w1) < 4294967296 ->
-  exists pads', sinv (mkBSt w1 (st_h st)) objs pads'.
+  exists objs' pads', sinv (mkBSt w1 (st_h st)) objs' pads'.
 Proof.
-  intros S Hq Hpl HW Hns. pose proof S as [H P].
+  intros S Hq Hpl HW Hns. pose proof S as (H & P & C).
   rewrite (hget_dst st objs pads hs S) in HW.
   destruct (hget_view st objs pads hs S) as [Vw _]. set (q := snd (hget st hs)) in *.
-  assert (Hsrc : p_valid q = false \/ In (core q) objs /\ p_member q = false \/
-                 p_kind q = KStruct /\ os_isZero (p_size q) = true \/
-                 p_kind q = KIface /\ 0 <= p_len q < 4294967296).
-  { destruct (p_valid q) eqn:EVq; [right|left; reflexivity].
-    destruct Vw as [V|[[M V]|[(h & i & Hh & MA)|[(Ek & Esz & _)|CV]]]]; [congruence|auto| | |].
-    - destruct MA as (_ & _ & _ & _ & _ & _ & _ & _ & Mt). rewrite (Hpl eq_refl) in Mt. discriminate.
-    - right. left. split; [exact Ek|]. rewrite Esz. reflexivity.
-    - right. right. exact CV. }
   destruct f as [|f]; [discriminate HW|].
-  destruct (write_ptr_hinv f (st_w st) objs pads (sd, ad) q w1 H Hq Hsrc HW Hns) as [pads' H'].
-  exists (pads ++ pads'). split; [exact H'|exact P].
+  destruct (p_valid q) eqn:EVq.
+  2:{ destruct (write_ptr_hinv f (st_w st) objs pads (sd, ad) q w1 H Hq (or_introl EVq) HW Hns) as [pads' H'].
+      exists objs, (pads ++ pads'). split; [exact H'|]. split; [exact P|exact C]. }
+  destruct (p_member q) eqn:EMq.
+  - (* a list member without pointers: copied into a fresh struct *)
+    assert (MA : exists h i, In h objs /\ member_at h i q).
+    { destruct Vw as [V|[[M V]|[X|[(_ & _ & M)|(_ & _ & M)]]]]; try congruence; try exact X. }
+    destruct (write_ptr_member_data f (st_w st) objs pads (sd, ad) q w1 H C Hq MA (Hpl eq_refl eq_refl) HW Hns)
+      as (objs' & pads' & H' & C' & I').
+    exists objs', pads'. split; [exact H'|]. split; [|exact C']. apply (pool_ok_incl objs); auto.
+  - (* a whole object *)
+    assert (Hsrc : p_valid q = false \/ In (core q) objs /\ p_member q = false \/
+                   p_kind q = KStruct /\ os_isZero (p_size q) = true \/
+                   p_kind q = KIface /\ 0 <= p_len q < 4294967296).
+    { right. destruct Vw as [V|[[M V]|[(h & i & Hh & MA)|[(Ek & Esz & _)|(Ek & Hl & _)]]]]; [congruence|auto| | |].
+      - destruct MA as (_ & _ & _ & _ & _ & _ & _ & _ & Mt). congruence.
+      - right. left. split; [exact Ek|]. rewrite Esz. reflexivity.
+      - right. right. auto. }
+    destruct (write_ptr_hinv f (st_w st) objs pads (sd, ad) q w1 H Hq Hsrc HW Hns) as [pads' H'].
+    exists objs, (pads ++ pads'). split; [exact H'|]. split; [exact P|exact C].
 Qed.
 
 (* ------------------------------------------------------------------ read ops that hand out handles *)
@@ -698,7 +827,7 @@ Lemma view_of_read m objs pads q depth p :
    (exists idx, 0 <= idx < 4294967296 /\ p = mkPtr true (fst q) 0 idx (mkOS 0 0) 0 KIface false false false)) -> view objs p.
 Proof.
   intros H C [->|[->|[(h & Hh & ->)|(idx & Hi & ->)]]].
-  4:{ right. right. right. right. split; [reflexivity|exact Hi]. }
+  4:{ right. right. right. right. split; [reflexivity|]. split; [exact Hi|reflexivity]. }
   - apply view_null.
   - right. right. right. left. repeat split.
   - right. left. split; [reflexivity|]. destruct (hi_good _ _ _ H h Hh) as [V _].
@@ -934,7 +1063,7 @@ Proof.
     { intros E _. injection E as <- _. exists objs, pads. now apply sinv_push_null. }
     intros E _. injection E as <- _. exists objs, pads. cbn [sub_op] in Hop.
     destruct P as [P C]. split; [exact H|]. split; [|exact C]. apply pool_ok_push; auto.
-    right. right. right. right. split; [reflexivity|]. cbn [p_len]. lia.
+    right. right. right. right. split; [reflexivity|]. split; [cbn [p_len]; lia|reflexivity].
   - (* AddCap *)
     intros E _. injection E as <- _. exists objs, pads. apply sinv_same_segs; auto.
   - (* SetUint *)
@@ -1054,7 +1183,7 @@ Proof.
     destruct (hget st h) as [l p] eqn:EH. destruct (hget st hs) as [ls q] eqn:EQ. cbn [sub_op] in Hop.
     destruct (is_src l) eqn:EL; [discriminate|].
     unfold pset. destruct (struct_set_ptr (e_fuel e) (st_w st) (as_struct p) i ls q) as [w1| |] eqn:ES; try discriminate.
-    intros E Hns. injection E as <- _. cbn [st_w] in Hns. exists objs.
+    intros E Hns. injection E as <- _. cbn [st_w] in Hns.
     unfold struct_set_ptr in ES.
     destruct (negb (p_valid (as_struct p)) || (i >=? PointerCount (p_size (as_struct p)))) eqn:EE; [discriminate|].
     assert (Hval : p_valid (as_struct p) = true) by (destruct (p_valid (as_struct p)); auto; discriminate).
@@ -1074,7 +1203,7 @@ Proof.
     destruct (hget st h) as [l p] eqn:EH. destruct (hget st hs) as [ls q] eqn:EQ.
     destruct (is_src l) eqn:EL; [discriminate|].
     unfold pset. destruct (ptrlist_set (e_fuel e) (st_w st) (as_list p) i ls q) as [w1| |] eqn:ES; try discriminate.
-    intros E Hns. injection E as <- _. cbn [st_w] in Hns. exists objs.
+    intros E Hns. injection E as <- _. cbn [st_w] in Hns.
     unfold ptrlist_set in ES.
     destruct (primitiveElem true (as_list p) i (mkOS 0 1)) as [addr| |] eqn:PE; cbn [bind] in ES; try discriminate.
     assert (Hval : p_valid (as_list p) = true).
@@ -1091,7 +1220,7 @@ Proof.
   - (* SetRoot *)
     destruct (hget st hs) as [ls q] eqn:EQ.
     unfold pset. destruct (set_root (e_fuel e) (st_w st) ls q) as [w1| |] eqn:ES; try discriminate.
-    intros E Hns. injection E as <- _. cbn [st_w] in Hns. exists objs.
+    intros E Hns. injection E as <- _. cbn [st_w] in Hns.
     unfold set_root, set_root_gen in ES.
     destruct (bm_segs (w_dst (st_w st))) as [|s0 r0] eqn:EB; [discriminate|].
     destruct (negb _); [discriminate|].
